@@ -319,4 +319,16 @@ def observe (r : Runner) : Obs :=
     ignoreTimeout := r.ignoreTimeout, timeout := r.timeout,
     deadline := if r.ignoreTimeout then none else some r.deadline }
 
+/-- facts about a runner that belongs to `re` which no code path changes once they hold: the track
+    count is the Regexp's (`runtrackcount` is assigned only by `initTrackCount`, from `code.TrackCount`,
+    when the stacks are first allocated) and the result object has one slot per capture slot. -/
+def RunInv (re : Re) (r : Runner) : Prop :=
+  (r.allocated = true → r.runtrackcount = re.trackCount) ∧
+  (∀ m, r.runmatch = some m → m.slots.length = re.capsize)
+
+/-- what holds for a runner sitting in the pool: `putRunner` has selected the main program again and
+    dropped the references to the input -/
+def PoolInv (re : Re) (r : Runner) : Prop :=
+  r.code = .main ∧ r.runtext = none ∧ (∀ m, r.runmatch = some m → m.text = none) ∧ RunInv re r
+
 end RegexVerif.RunnerReuse
